@@ -32,6 +32,7 @@ for v in ('A', 'B', 'C', 'D'):
             pr = {'R': generic.stored_constants_profile(f), 'O': generic.offsets_profile(f)}
             if any(b.get('case') for b in f.blocks.values()):
                 pr['F'] = generic.fallthrough_profile(f)
+                pr['P'] = generic.case_partition(f)
             if pr['R'] or pr['O'] or 'F' in pr:
                 prof.setdefault(v, {}).setdefault(f.file, {})[f.name] = pr
             ab = generic.argument_bindings(f, prog)
